@@ -325,7 +325,16 @@ def run_batch(ctx, lines, dbg=False, want_model=True, want_check=True, cap=20):
     r = subprocess.run([harness_bin(dbg), allf, str(cap)], stdout=subprocess.PIPE, stderr=subprocess.PIPE, text=True)
     impl = r.stdout.split("\n")[:-1]
     if len(impl) != len(lines):
-        raise RuntimeError("harness returned %d lines for %d cases (rc=%s): %s" % (len(impl), len(lines), r.returncode, r.stderr[-500:]))
+        # the harness process died as a whole (an abort, e.g. a failed allocation or a stack overflow, cannot be caught
+        # in-process): run every case of the batch in a process of its own; the cases that die are reported as ABORT
+        ctx.notes.append("harness aborted on a batch of %d cases (rc=%s: %s); re-run with one process per case"
+                         % (len(lines), r.returncode, r.stderr[-200:].strip()))
+        e = dict(os.environ)
+        e["HARNESS_ISOLATE"] = "1"
+        r = subprocess.run([harness_bin(dbg), allf, str(cap)], stdout=subprocess.PIPE, stderr=subprocess.PIPE, text=True, env=e)
+        impl = r.stdout.split("\n")[:-1]
+        if len(impl) != len(lines):
+            raise RuntimeError("harness returned %d lines for %d cases (rc=%s): %s" % (len(impl), len(lines), r.returncode, r.stderr[-500:]))
     ifs = []
     for i, ch in enumerate(chunks):
         f = "%s.%d.impl" % (base, i)
@@ -449,6 +458,24 @@ def attribute_known(ctx, findings):
             cand.append((f, hit))
         else:
             rest.append(f)
+    if cand:
+        # the recorded finding is what the PINNED pipeline does: the hand-written model reproduces it exactly (it models
+        # the pinned code, swap included).  A failing case is that finding only if (a) the implementation's output is
+        # the model's output on it and (b) the failure disappears with the swap-repair switch on.  A different wrong
+        # value in the same field (which the switch would also overwrite) fails (a) and is reported.
+        need = [f for f, _ in cand if f.get("model") is None]
+        if need:
+            _, mo, _ = run_batch(ctx, [f["case"] for f in need], dbg=need[0]["dbg"], want_model=True)
+            for f, m in zip(need, mo):
+                f["model"] = m
+        keep = []
+        for f, fd in cand:
+            if f["model"] in (None, "ORACLE") or f["model"] == f["impl"]:
+                keep.append((f, fd))
+            else:
+                f["note"] = "differs from the model of the pinned pipeline: not the known finding"
+                rest.append(f)
+        cand = keep
     if cand:
         lines = [re.sub(r"\brepair=0\b", "repair=1", f["case"]) for f, _ in cand]
         impl, model, verd = run_batch(ctx, lines, dbg=cand[0][0]["dbg"], want_model=False)
